@@ -720,12 +720,16 @@ class Engine:
 
 
 def _info(info):
+    import json
     if callable(info):
         try:
-            return info()
+            info = info()
         except Exception as e:  # pragma: no cover
             return {'info_error': repr(e)}
-    return info
+    try:        # plain data only: the record crosses process boundaries and ends in a JSON replay file
+        return json.loads(json.dumps(info, default=str))
+    except Exception as e:  # pragma: no cover
+        return {'info_error': repr(e)}
 
 
 def _zval(v):
